@@ -218,6 +218,57 @@ class Engine:
         cache[key] = out
         return out
 
+    def stable_table(self, gterm):
+        """a module-level dict display {constant: value, ...} bound exactly once, whose every use in
+        the package is a lookup, a membership test, an iteration or one of .get/.items/.keys/
+        .values (never stored into, never handed on as a value): its display, else None"""
+        if not (isinstance(gterm, tuple) and len(gterm) == 2 and gterm[0] == "global" and gterm[1].startswith("const:")):
+            return None
+        cache = self.__dict__.setdefault("_stable_tables", {})
+        if gterm in cache:
+            return cache[gterm]
+        cache[gterm] = None
+        short, name = gterm[1][6:].rsplit(".", 1)
+        m = self.prog.by_short.get(short)
+        vals = m.consts.get(name, []) if m else []
+        out = None
+        if len(vals) == 1 and isinstance(vals[0], ast.Dict) and all(isinstance(k, ast.Constant) for k in vals[0].keys):
+            ok = not any(isinstance(g, ast.Global) and name in g.names for g in ast.walk(m.tree))
+            for mod in self.prog.modules.values():
+                r = self.prog.resolve_name(mod, name)
+                if not (r[0] == "const" and r[1] == short and r[2] == name):
+                    continue
+                parents = {}
+                for n in ast.walk(mod.tree):
+                    for ch in ast.iter_child_nodes(n):
+                        parents[ch] = n
+                for n in ast.walk(mod.tree):
+                    if not (isinstance(n, ast.Name) and n.id == name):
+                        continue
+                    par = parents.get(n)
+                    if isinstance(n.ctx, ast.Store):
+                        if isinstance(par, (ast.Assign, ast.AnnAssign)) and parents.get(par) is mod.tree:
+                            continue
+                        ok = False
+                    elif isinstance(par, ast.Subscript) and par.value is n and isinstance(par.ctx, ast.Load):
+                        continue
+                    elif isinstance(par, ast.Compare) and n in par.comparators and all(isinstance(o, (ast.In, ast.NotIn)) for o in par.ops):
+                        continue
+                    elif isinstance(par, (ast.For, ast.comprehension)) and par.iter is n:
+                        continue
+                    elif isinstance(par, ast.Attribute) and par.value is n and par.attr in ("get", "items", "keys", "values") and isinstance(parents.get(par), ast.Call):
+                        continue
+                    elif isinstance(par, ast.alias):
+                        continue
+                    else:
+                        ok = False
+            if ok:
+                t = self.static_term(m.__dict__.get("const_origin", {}).get(name, m), vals[0])
+                if t is not None and len(t) == 4 and t[0] == "lit" and t[1] == "dict":
+                    out = t
+        cache[gterm] = out
+        return out
+
     def _immutable_value(self, t):
         from .terms import is_const as _is_const
 
